@@ -1406,7 +1406,7 @@ def _same_modulo_deps(j, va):
 
 def taint(v, deps):
     """add control dependences to a value (implicit flow of the branches taken inside the callee)"""
-    deps = frozenset(("ctl", d) if isinstance(d, int) else d for d in deps)
+    deps = frozenset(d if (isinstance(d, tuple) and d and d[0] == "ctl") else ("ctl", d) for d in deps)
     if isinstance(v, IntV):
         return v if deps <= v.deps else v._with(deps=v.deps | deps)
     if isinstance(v, BoolV):
